@@ -257,6 +257,30 @@ class CHECK(Check):
         vals += ['run `ls -l` first', 'a\u00a0b', '{x}', '${x}', '?', '??', 'a\tb', '\u2028', '[x]', '#x', '@x', '@@x', 'NULL', 'true', '\x00', 'a\rb']
         vals += ["\\' OR 1=1 -- ", "'; drop table t; --", 'it\'s', '%s', ':x', '%(x)s', '\\\\', "a\\'b", 'x' * 300]
         others = [0, 1, -5, 10 ** 20, 1.5, -0.25, 1e-7, 1e-05, -2.5e-07, 1e+22, 1 / 81000, 123456789.125, True, False, None, dt.date(2020, 1, 2), dt.datetime(2020, 1, 2, 3, 4, 5)]
+        # temporal values: boundary product of date x time-of-day x microsecond (every sub-second digit position populated / empty)
+        dates = [(1, 1, 1), (1970, 1, 1), (2020, 2, 29), (9999, 12, 31)]
+        for d in dates:
+            others.append(dt.date(*d))
+            for hms in [(0, 0, 0), (3, 4, 5), (23, 59, 59)]:
+                for us in [0, 1, 10, 100, 1000, 120000, 123456, 500000, 999999]:
+                    if self.tier == 'thorough' or d == (2020, 2, 29) or (hms == (3, 4, 5) and us in (0, 123456)):
+                        others.append(dt.datetime(*d, *hms, us))
+        # numbers: mantissa x decimal exponent x sign, and integers around the machine-word boundaries
+        for m in [1.0, 1.5, 0.1, 1 / 3, 123456789.125]:
+            for e in ([-300, -10, -7, -5, -4, -1, 0, 5, 15, 16, 17, 22, 300] if self.tier == 'thorough' else [-7, -5, -4, 0, 15, 16, 22]):
+                for sgn in (1, -1):
+                    x = sgn * m * 10.0 ** e
+                    if x == x and x not in (float('inf'), float('-inf')):
+                        others.append(x)
+        for k in [7, 15, 16, 31, 32, 53, 63, 64, 100]:
+            others += [2 ** k - 1, 2 ** k, -(2 ** k), -(2 ** k) - 1]
+        seen_o, uniq = set(), []
+        for v in others:
+            key = (type(v).__name__, repr(v))
+            if key not in seen_o:
+                seen_o.add(key)
+                uniq.append(v)
+        others = uniq
         out = []
         for v in vals:
             for pos in POSITIONS:
